@@ -343,7 +343,7 @@ class Engine:
             return VExc("PASSED")
         if shape.startswith("iter"):
             return self.lib.fresh_iter(st, name)
-        if shape == "stream":
+        if shape in ("stream", "anystream"):
             return VStream(st.fresh(name, self.lib.STREAM))
         raise Unsupported(f"fresh value of shape {shape}")
 
